@@ -40,6 +40,10 @@ OBJ_SETUP = ("let o_t = ipv4::tcp::flow(1.2.3.4:1, 1.2.3.5:2);\nlet o_u = ipv4::
              "let o_1 = erspan1::session(1.2.3.4, 1.2.3.5);\nlet o_2 = erspan2::session(1.2.3.4, 1.2.3.5);\n"
              "let o_b = io::bufio(\"0123456789\");\nlet v_pkt = ipv4::udp::unicast(1.2.3.4:1, 1.2.3.5:2, \"x\");\n"
              "let v_gen = o_t.open();\nlet v_nil = o_t.client_hole(0);\nlet v_jump = time::jump_nanos(1);\n")
+# every object of OBJ_SETUP used once, so that counters, cursors and queues are no longer in their initial state
+WARMUP = ("o_t.open();\no_t.client_message(\"abc\");\no_t.server_message(\"defg\");\no_u.client_dgram(\"x\");\n"
+          "o_i.echo(\"p\");\no_i.echo_reply(\"p\");\no_g.fragment(0, 1);\no_v.encap(v_pkt);\no_r.encap(v_pkt);\n"
+          "o_1.encap(v_pkt);\no_2.encap(v_pkt);\no_b.read(4);\n")
 VALUES = {
     "bool": ["true", "false"], "int": ["0", "255", "256", "65535", "65536", "4294967296", "18446744073709551615", "0x10"],
     "str": ['""', '"x"', '"|ff 00|"', '"0123456789012345678901234567890123456789012345678901234567890123456789"'],
@@ -113,6 +117,26 @@ def catalogue_cases(ctx, cat):
                 out.append(("cat:" + tag.split("@")[0].split(":")[0], PREAMBLE + OBJ_SETUP + stmt + "\n"))
                 if not ctx.thorough:
                     break
+    # methods on objects that already have a history: integers at the width boundaries in every integer parameter,
+    # the call made twice (the second call sees the state the first one left)
+    for f in cat["funcs"]:
+        if "." not in f["key"]:
+            continue
+        c0 = callee(f["key"])
+        base = good_args(f)
+        for i, p in enumerate(f["args"]):
+            if p["type"] not in ("U8", "U16", "U32", "U64", "Type"):
+                continue
+            for v in VALUES["int"] + ["4294967295", "9223372036854775808"]:
+                if not ctx.thorough and v not in ("0", "4294967295", "4294967296", "18446744073709551615") and r.random() < 0.5:
+                    continue
+                if p["kind"] == "pos":
+                    args = list(base)
+                    args[i] = v
+                else:
+                    args = base + ["%s: %s" % (p["name"], v)]
+                call = "%s(%s);\n" % (c0, ", ".join(args))
+                out.append(("cat:history", PREAMBLE + OBJ_SETUP + WARMUP + call + call))
     # constants and reference shapes
     for k in cat["consts"]:
         if ctx.thorough or r.random() < 0.1:
@@ -298,12 +322,47 @@ def batch_contract(ctx, wd):
         ctx.fail("batch-missing-input", "rc %d verdicts %s" % (rc, {k: v.status for k, v in res.items()}), {"program": "a missing c", "stdout": out})
 
 
+def verdict(r):
+    return (r.status, r.kind if r.status != "ok" else None, tuple(r.loc) if r.loc else None, r.pcap)
+
+
+def batch_dependence(ctx, cases, c, batch=40):
+    """Search for a concrete failing input behind a model/implementation difference: the cases were compiled
+    several to a command line; if the same file compiled alone gives another verdict, the result depends on
+    the other inputs, which the property forbids (and the files are the replay)."""
+    if getattr(ctx, "_batchdep_budget", 6) <= 0:
+        return False
+    ctx._batchdep_budget = getattr(ctx, "_batchdep_budget", 6) - 1
+    i = cases.index(c)
+    start = (i // batch) * batch
+    mine = {"x": c.src}
+    _, solo = common.run_programs("c08solo", mine, timeout=60)
+    if verdict(solo["x"]) == verdict(c.impl):
+        return False
+    before = cases[start:i]
+    for group in ([before[-1]] if before else []), before:
+        if not group:
+            continue
+        progs_ = {"p%03d" % j: g.src for j, g in enumerate(group)}
+        progs_["q_last"] = c.src
+        _, res = common.run_programs("c08pair", progs_, timeout=120)
+        if verdict(res["q_last"]) != verdict(solo["x"]):
+            ctx.fail("batch-dependence", "compiled alone: %s %s @%s; compiled after %d other input(s) on the same command line: %s %s @%s"
+                     % (solo["x"].status, solo["x"].kind, solo["x"].loc, len(group), res["q_last"].status, res["q_last"].kind,
+                        res["q_last"].loc),
+                     {"program": c.src.decode("utf-8", "replace"), "source_hex": c.src.hex(),
+                      "preceding_inputs_hex": [g.src.hex() for g in group],
+                      "how": "write the preceding inputs and then this one to files and name them in this order on one command line"})
+            return True
+    return False
+
+
 def run(ctx):
     cat = json.load(open(os.path.join(common.BUILD, "catalogue.json")))
     r = ctx.rng
     raw = catalogue_cases(ctx, cat)
     if not ctx.thorough:
-        raw = [x for x in raw if x[0].startswith("ref") or r.random() < 0.45]
+        raw = [x for x in raw if x[0].startswith("ref") or x[0] == "cat:history" or r.random() < 0.45]
     valid = [gen.render_program(progs.random_program(random.Random(r.getrandbits(32)), maxlen=20).stmts) for _ in range(30)]
     cases = []
 
@@ -348,6 +407,8 @@ def run(ctx):
             if tuple(iloc) != tuple(m["loc"]):
                 same = False
         if not same:
+            if batch_dependence(ctx, cases, c):
+                continue
             ctx.fail("outcome-differs", "impl %s @%s, model %s %s @%s" % (ic, c.impl.loc, m["status"], m["kind"], m["loc"]),
                      diff.replay_of(c, {"source_hex": c.src.hex()}), disagreement=True)
     deep_probes(ctx)
@@ -360,6 +421,15 @@ def run(ctx):
 def replay(ctx, rp):
     ctx.count("replay")
     src = bytes.fromhex(rp["source_hex"]) if rp.get("source_hex") else rp["program"].encode()
+    if rp.get("preceding_inputs_hex"):
+        _, solo = common.run_programs("c08solo", {"x": src}, timeout=60)
+        progs_ = {"p%03d" % j: bytes.fromhex(h) for j, h in enumerate(rp["preceding_inputs_hex"])}
+        progs_["q_last"] = src
+        _, res = common.run_programs("c08pair", progs_, timeout=120)
+        if verdict(res["q_last"]) != verdict(solo["x"]):
+            ctx.fail("batch-dependence", "verdict alone %s %s differs from the verdict after the preceding inputs %s %s"
+                     % (solo["x"].status, solo["x"].kind, res["q_last"].status, res["q_last"].kind), rp)
+        return
     c = Case()
     c.name, c.src, c.files, c.gen = "replay", src, {}, {"kind": "replay"}
     d, res = common.run_programs("c08r", {"replay": src}, timeout=60)
